@@ -491,3 +491,86 @@ def _c0407_replay(prop, path):
 
 TABLE["C04"] = dict(run=_c04, replay=_c0407_replay)
 TABLE["C07"] = dict(run=_c07, replay=_c0407_replay)
+
+
+# ------------------------------------------------------------------------------------------
+C16_KINDS = ["verify", "validate", "serialise", "extract", "parse"]
+
+
+def _c16_cases(cases, tier):
+    import random
+    out = [dict(mode="footprint", kind=k, origin=o) for k in C16_KINDS for o in ("parsed", "built", "protobuf")]
+    combos = []
+    seen = set()
+    for c in cases:
+        ks = tuple(sorted(c["kinds"].values() if isinstance(c["kinds"], dict) else c["kinds"]))
+        if ks not in seen:
+            seen.add(ks)
+            combos.append(list(ks))
+    rnd = random.Random(C.seed())
+    must = [c for c in combos if c.count("verify") == 3 or (c.count("verify") == 2 and "validate" in c) or c == sorted(["verify", "serialise", "extract"])
+            or c == sorted(["verify", "validate", "parse"])]
+    rest = [c for c in combos if c not in must]
+    pick = must + (rest if tier == "thorough" else rnd.sample(rest, min(4, len(rest))))
+    out += [dict(mode="race", kinds=c) for c in pick]
+    return out
+
+
+def _c16_post(wd, summ):
+    """Attribute the race detector's reports (stderr of the -race build) to the race cases and write them into the trace."""
+    err = open(_os.path.join(wd, "summary.json.stderr")).read()
+    per, sites, cur = {}, {}, None
+    for line in err.splitlines():
+        m = _re.match(r"VERIF-RACE-CASE-BEGIN (\d+)", line)
+        if m:
+            cur = int(m.group(1))
+            per.setdefault(cur, 0)
+            sites.setdefault(cur, [])
+            continue
+        if line.startswith("VERIF-RACE-CASE-END"):
+            cur = None
+            continue
+        if cur is not None and "WARNING: DATA RACE" in line:
+            per[cur] += 1
+        m = _re.match(r"\s+(github\.com/google/go-tdx-guest/\S+)\(", line)
+        if cur is not None and m and m.group(1) not in sites[cur] and len(sites[cur]) < 6:
+            sites[cur].append(m.group(1))
+    tr = _os.path.join(wd, "trace.ndjson")
+    lines = open(tr).read().splitlines()
+    case = None
+    out = []
+    for ln in lines:
+        e = _json.loads(ln)
+        if e["ev"] == "Call":
+            case = e["case"]
+        if e["ev"] == "Race":
+            if case not in per:
+                raise C.Infra("no race-detector section for race case %s" % case)
+            e["reports"] = per[case]
+            e["sites"] = sites[case]
+        out.append(_json.dumps(e, separators=(",", ":")))
+    with open(tr, "w") as f:
+        f.write("\n".join(out) + "\n")
+    summ["counts"]["race_reports"] = sum(per.values())
+
+
+def _key_c16(call, evs):
+    i = call["input"]
+    if i.get("mode") == "race":
+        return "race:" + "+".join(i["kinds"])
+    return "footprint:%s:%s" % (i["kind"], i["origin"])
+
+
+def _c16(prop, tier):
+    env = dict(_os.environ, GORACE="exitcode=0 halt_on_error=0")
+    code, _, _ = smallfam.run(prop, tier, mc_module="SharedQuote_MC", mc_cfg="CONSTANTS\n  N = 3\nSPECIFICATION Spec\nINVARIANTS NoSharedWrite NoRace SameAsAlone EmptyFootprints ExportCase\nCHECK_DEADLOCK FALSE\n",
+                              driver="shared", trace_module="SharedQuote_Trace", trace_consts="  N = 1\n", key_fn=_key_c16, case_fn=_c16_cases, race=True, harness_env=env,
+                              post_harness=_c16_post, required_actions=("Step",),
+                              assumptions=["real schedules are explored by the Go race detector under stress (go build -race), not by TLC; TLC exhausts the model's interleavings",
+                                           "snapshots cover every exported byte slice reachable from the message, the raw input and the validation options up to its capacity (spare bytes pre-filled with a canary)"],
+                              rule="TLC checks SharedQuote for 3 concurrent calls; every (call kind, message origin) pair is run once under a to-capacity snapshot; selected combinations of call kinds run concurrently under the race detector")
+    return code
+
+
+TABLE["C16"] = dict(run=_c16, replay=lambda p, path: smallfam.replay(p, path, driver="shared", trace_module="SharedQuote_Trace", trace_consts="  N = 1\n", race=True,
+                                                                      harness_env=dict(_os.environ, GORACE="exitcode=0 halt_on_error=0")))
